@@ -142,6 +142,9 @@ class Watchdog:
         return False
 
 
+INSTRUMENTATION_FRAMES = {"probe", "around", "_around", "observe", "note", "decide", "tighten_bounds_monitor"}
+
+
 def graphtage_site(exc: BaseException) -> str:
     """Innermost graphtage frame of an exception: 'ExcType@file.py:function' (no line numbers: stable under edits)."""
     import traceback
@@ -153,9 +156,11 @@ def graphtage_site(exc: BaseException) -> str:
             site = f"{os.path.basename(fn)}:{fr.name}"
     if tb:
         last = tb[-1].filename.replace("\\", "/")
-        if "/gsim/" in last and not last.endswith("/gsim/seams.py"):
-            # raised by the harness' own code (e.g. a reach-probe wrapper that no longer fits a refactored private
-            # helper), even if graphtage frames are on the stack: never a verdict about graphtage
+        if "/gsim/" in last and tb[-1].name in INSTRUMENTATION_FRAMES:
+            # raised by the harness' own INSTRUMENTATION (a reach-probe or monitor wrapper that no longer fits a
+            # refactored helper), even if graphtage frames are on the stack: never a verdict about graphtage.
+            # An exception raised inside a *simulated environment object* that graphtage called back (an item's
+            # comparison, a stream's write) is graphtage's doing and keeps its graphtage site.
             site = None
     return f"{type(exc).__name__}@{site or 'outside-graphtage'}"
 
